@@ -226,3 +226,97 @@ def _key_order_lemma():
 
 
 R.lemma("_sort_turn_buffers/key-order-is-total", "C10", _key_order_lemma)
+
+
+# ------------------------------------------------------------------ drain-flush-retry regions of _run_agents_parallel_batch
+# The driver itself (dynamic lookups through sys.modules, the whole stage pipeline behind run_turn) is not verified;
+# its two back-pressure regions
+#       try: stager.stage(fp, key, payload)
+#       except RuntimeError as exc:
+#           if str(exc) == "LOG_STAGING_BACKPRESSURE":
+#               for rec in stager.drain_sorted(): _append_unbuffered(rec.file_path, rec.payload)
+#               stager.stage(fp, key, payload)
+#           else: raise
+# are: the real statement nodes are verified as a region whose free variables obey the *interface contract* of
+# LogStager (DESIGN C10/C16: stage raises LOG_STAGING_BACKPRESSURE iff _bytes + est > byte_limit and then changes
+# nothing; drain_sorted returns the buffer in its deterministic order and empties it) and of _append_unbuffered
+# (appends one line; I/O errors out of scope).  Ghost model of the stager: buf (staged (path, payload) in arrival
+# order), sbytes, limit; written = lines flushed to disk, in order.
+
+def _stage_retry_regions(fn):
+    out = []
+    for n in ast.walk(fn):
+        if isinstance(n, ast.Try) and n.body and isinstance(n.body[0], ast.Expr) and isinstance(n.body[0].value, ast.Call):
+            f = n.body[0].value.func
+            if isinstance(f, ast.Attribute) and f.attr == "stage" and isinstance(f.value, ast.Name) and f.value.id == "stager":
+                out.append(n)
+    return sorted(out, key=lambda n: n.lineno)
+
+
+R.region("stage-retry-0", lambda fn: _stage_retry_regions(fn)[0:1])    # per captured log line
+R.region("stage-retry-1", lambda fn: _stage_retry_regions(fn)[1:2])    # the apply.jsonl record
+
+R.untype("LogKeyV")
+R.untype("Payload")
+PAIR = "Tuple[str, Un[Payload]]"
+R.record("SRec", {"file_path": "str", "payload": "Un[Payload]"})
+R.uf("est_of", ["str", "Un[Payload]"], "int")                    # LogStager's size estimate of one record
+R.uf("drain_order", ["List[" + PAIR + "]"], "List[" + PAIR + "]")   # drain_sorted's deterministic order of a buffer
+EST = "est_of(file_path, payload)"
+R.funtype("StageFn", params=["file_path", "key", "payload"],
+          raises={"RuntimeError": "sbytes + " + EST + " > limit"},
+          exc_info=("'RuntimeError'", "'LOG_STAGING_BACKPRESSURE'"),
+          ensures=["sbytes + " + EST + " <= limit"],
+          effects=["buf.append((file_path, payload))", "sbytes = sbytes + " + EST])
+R.funtype("DrainFn", params=[], returns="List[SRec]",
+          ensures=["len(result) == len(buf)",
+                   "forall(i, 0 <= i < len(result), result[i].file_path == drain_order(buf)[i][0] and "
+                   "result[i].payload == drain_order(buf)[i][1])"],
+          effects=["buf.clear()", "sbytes = 0"])
+R.funtype("AppendFn", params=["path", "payload"], effects_before=["written.append((path, payload))"])
+R.objtype("StagerIface", {"stage": "StageFn", "drain_sorted": "DrainFn"})
+
+RB = OP + "_run_agents_parallel_batch#"
+REGION_GHOST = {"buf": ("List[" + PAIR + "]", "any"), "sbytes": ("int", "any"), "limit": ("int", "any"),
+                "written": ("List[" + PAIR + "]", "empty")}
+# LogStager invariant on entry: 0 <= _bytes <= byte_limit; the property quantifies over byte limits from 1 upward
+REGION_REQ = [("stager-invariant", "0 <= sbytes and sbytes <= limit and limit >= 1")]
+
+
+def _region_contract(tag, fp, name, extra_req, types):
+    est = "est_of(%s, payload)" % fp
+    R.contract(
+        RB + tag, "C10", name=name, callee=False,
+        types=dict({"stager": "StagerIface", "key": "Un[LogKeyV]", "payload": "Un[Payload]",
+                    "_append_unbuffered": "AppendFn"}, **types),
+        ghost=REGION_GHOST,
+        # est = sum(len(str(k)) + len(str(v)) ...) + 2 in LogStager.stage: at least 2 for every record
+        requires=REGION_REQ + [("estimate-at-least-2", est + " >= 2")] + extra_req,
+        ensures=[
+            ("record-staged-last", "len(buf) >= 1 and buf[len(buf) - 1][0] == " + fp + " and buf[len(buf) - 1][1] == payload"),
+            ("fits-then-nothing-flushed",
+             "implies(old(sbytes) + " + est + " <= limit, len(written) == 0 and len(buf) == old(len(buf)) + 1 and "
+             "forall(i, 0 <= i < old(len(buf)), buf[i] == old(buf)[i]))"),
+            ("backpressure-then-whole-buffer-flushed-in-drain-order",
+             "implies(old(sbytes) + " + est + " > limit, len(written) == old(len(buf)) and len(buf) == 1 and "
+             "forall(i, 0 <= i < len(written), written[i] == drain_order(old(buf))[i]))"),
+            ("nothing-lost-nothing-duplicated", "len(written) + len(buf) == old(len(buf)) + 1"),
+            ("stager-invariant-kept", "0 <= sbytes and sbytes <= limit"),
+        ],
+        # flush order and *success* must not depend on the byte limit: the region may not raise
+        raises="none",
+        loops={0: {"inv": [
+            "len(written) == _i and len(buf) == 0 and sbytes == 0",
+            "forall(j, 0 <= j < _i, written[j][0] == _iter[j].file_path and written[j][1] == _iter[j].payload)",
+        ]}},
+        # stage() raises nothing but the back-pressure RuntimeError under the interface contract
+        unreachable_ok=["raise"],
+    )
+
+
+_region_contract("stage-retry-0", "file_path", "stage-retry[log line, any byte limit >= 1]", [], {"file_path": "str"})
+_region_contract("stage-retry-0", "file_path", "stage-retry[log line, every single record fits the limit]",
+                 [("single-record-fits", "est_of(file_path, payload) <= limit")], {"file_path": "str"})
+_region_contract("stage-retry-1", "'apply.jsonl'", "stage-retry[apply.jsonl, any byte limit >= 1]", [], {})
+_region_contract("stage-retry-1", "'apply.jsonl'", "stage-retry[apply.jsonl, every single record fits the limit]",
+                 [("single-record-fits", "est_of('apply.jsonl', payload) <= limit")], {})
